@@ -27,6 +27,7 @@ import (
 	"github.com/ChainSafe/gossamer/dot/types"
 	"github.com/ChainSafe/gossamer/internal/database"
 	"github.com/ChainSafe/gossamer/internal/log"
+	"github.com/ChainSafe/gossamer/lib/common"
 	"github.com/ChainSafe/gossamer/pkg/scale"
 	inmemory_trie "github.com/ChainSafe/gossamer/pkg/trie/inmemory"
 	"github.com/ChainSafe/gossamer/zz_verif/vcommon"
@@ -95,23 +96,34 @@ func (run *vc36Run) witness(k int, extra map[string]any) map[string]any {
 	return w
 }
 
-// checkCrashPoint runs the restart path on db (= writes [0,k)) and decides.
-func (run *vc36Run) checkCrashPoint(k int, db database.Database) {
-	c := run.c
+// vc36Oracle is what ONE restart is judged against: the scenario (blocks and their models), the finality
+// baseline, and per set id the authority list read by the node that wrote the database.
+type vc36Oracle struct {
+	run       *vc36Run
+	prefix    string // violation class prefix: "" (crash), "no-crash/" (complete log), "continued/" (restart after recover-and-continue)
+	where     string // "[scenario k=..]" for messages
+	cnt       string // counter prefix ("" single crash, "pair_" second restart of a two-phase pair)
+	base      vc36Quiescent
+	authBySet map[uint64][]byte
+	witness   func(extra map[string]any) map[string]any
+}
+
+// check runs the restart path (the real Service.Start) on db and decides; it reports whether the restart was clean
+// (no violation recorded).
+func (o *vc36Oracle) check(db database.Database) bool {
+	run, c, base := o.run, o.run.c, o.base
+	clean := true
 	viol := func(class, msg string, extra map[string]any) {
-		if k == len(run.rec.log) {
-			class = "no-crash/" + class // the complete log: not a crash effect
-		}
-		c.Violation(class, fmt.Sprintf("[%s k=%d/%d] %s", run.plan.Name, k, len(run.rec.log), msg), run.witness(k, extra))
+		clean = false
+		c.Violation(o.prefix+class, o.where+" "+msg, o.witness(extra))
 	}
-	base := run.baseline(k)
 
 	// --- restart: the real Service.Start over the crash-truncated database
 	rs := &Service{db: db, isMemDB: true, genesisBABEConfig: run.cfg, Telemetry: vc36NoTelemetry{}, closeCh: make(chan interface{})}
 	c.Eval(1)
 	if err := rs.Start(); err != nil {
 		viol("restart-fails", "Service.Start: "+err.Error(), nil)
-		return
+		return false
 	}
 
 	// --- finalised head: header
@@ -119,17 +131,17 @@ func (run *vc36Run) checkCrashPoint(k int, db database.Database) {
 	round, setID, err := rs.Block.GetHighestRoundAndSetID()
 	if err != nil {
 		viol("head-unreadable", "GetHighestRoundAndSetID: "+err.Error(), nil)
-		return
+		return false
 	}
 	headHash, err := rs.Block.GetHighestFinalisedHash()
 	if err != nil {
 		viol("head-unreadable", "GetHighestFinalisedHash: "+err.Error(), nil)
-		return
+		return false
 	}
 	head, err := rs.Block.GetHighestFinalisedHeader()
 	if err != nil {
 		viol("header-unreadable", "GetHighestFinalisedHeader: "+err.Error(), map[string]any{"head": headHash.String()})
-		return
+		return false
 	}
 	if rs.Block.lastFinalised != headHash || rs.Block.BestBlockHash() != headHash {
 		viol("restart-head-mismatch", fmt.Sprintf("restarted block state starts from %s / best %s, the database's highest finalised block is %s",
@@ -138,7 +150,7 @@ func (run *vc36Run) checkCrashPoint(k int, db database.Database) {
 	want := run.byHash[headHash]
 	if want == nil {
 		viol("head-unknown", "finalised head "+headHash.String()+" is not a block of the scenario", nil)
-		return
+		return false
 	}
 	info := map[string]any{"head": headHash.String(), "head_number": want.number, "round": round, "set_id": setID}
 	if henc, err := scale.Marshal(*head); err != nil || !bytes.Equal(henc, want.headerEnc) || head.Hash() != headHash {
@@ -186,12 +198,57 @@ func (run *vc36Run) checkCrashPoint(k int, db database.Database) {
 			// (it fails on inlined branch children even without any crash), so it is observed only
 			got, err = inmemory_trie.GetFromDB(rs.Storage.db, root, key)
 			if err != nil || !bytes.Equal(got, vs[i]) {
-				c.Count("state_getfromdb_mismatch_observed_only", 1)
+				c.Count(o.cnt+"state_getfromdb_mismatch_observed_only", 1)
 			}
 		}
-		c.Count("state_entries_compared", len(ks))
+		c.Count(o.cnt+"state_entries_compared", len(ks))
 		if bad != "" {
 			viol("state-differs", bad, info)
+		}
+	}
+
+	// --- the finalised chain below the head: every block from the head down to genesis has its header, its body
+	// and its entry in the persistent number -> hash index (what GetHashByNumber / GetBlockByNumber read for
+	// numbers below the block-tree root).  The head's own index entry is read from the table directly, because
+	// BlockState.GetHashByNumber answers the root's number from memory.
+	c.Eval(1)
+	for b := want; ; b = run.parentOf(b.idx) {
+		binfo := map[string]any{"head": headHash.String(), "head_number": want.number, "block": b.hash.String(), "block_number": b.number}
+		who := fmt.Sprintf("finalised block #%d (head is #%d)", b.number, want.number)
+		cls := "chain-"
+		if b == want {
+			cls, who = "head-", "finalised head"
+		}
+		raw, err := rs.Block.db.Get(headerHashKey(uint64(b.number)))
+		if err != nil {
+			viol(cls+"number-index-missing", fmt.Sprintf("%s: no number->hash entry for %d: %v", who, b.number, err), binfo)
+		} else if common.NewHash(raw) != b.hash {
+			viol(cls+"number-index-differs", fmt.Sprintf("%s: number->hash entry for %d is %s", who, b.number, common.NewHash(raw)), binfo)
+		}
+		c.Count(o.cnt+"chain_blocks_checked", 1)
+		if b != want {
+			c.Count(o.cnt+"chain_blocks_below_head_checked", 1)
+			if hdr, err := rs.Block.GetHeader(b.hash); err != nil {
+				viol("chain-header-unreadable", fmt.Sprintf("%s: GetHeader: %v", who, err), binfo)
+			} else if henc, err := scale.Marshal(*hdr); err != nil || !bytes.Equal(henc, b.headerEnc) {
+				viol("chain-header-differs", fmt.Sprintf("%s: header differs from the imported one (err=%v)", who, err), binfo)
+			}
+			if body, err := rs.Block.GetBlockBody(b.hash); err != nil {
+				viol("chain-body-unreadable", fmt.Sprintf("%s: GetBlockBody: %v", who, err), binfo)
+			} else if benc, err := scale.Marshal(*body); err != nil || !bytes.Equal(benc, b.bodyEnc) {
+				viol("chain-body-differs", fmt.Sprintf("%s: body differs from the imported one (err=%v)", who, err), binfo)
+			}
+			if h, err := rs.Block.GetHashByNumber(b.number); err != nil || h != b.hash {
+				viol("chain-by-number-unreadable", fmt.Sprintf("%s: GetHashByNumber(%d) = %s, %v", who, b.number, h, err), binfo)
+			} else if blk, err := rs.Block.GetBlockByNumber(b.number); err != nil || blk == nil || blk.Header.Hash() != b.hash {
+				viol("chain-by-number-unreadable", fmt.Sprintf("%s: GetBlockByNumber(%d): %v", who, b.number, err), binfo)
+			}
+			if _, err := rs.Block.GetArrivalTime(b.hash); err != nil {
+				c.Count(o.cnt+"chain_arrival_time_unreadable_observed_only", 1) // not stated by the property
+			}
+		}
+		if b.idx < 0 {
+			break
 		}
 	}
 
@@ -202,10 +259,10 @@ func (run *vc36Run) checkCrashPoint(k int, db database.Database) {
 			round, setID, base.after, base.round, base.setID), info)
 	}
 	if want.number < base.headNumber {
-		c.Count("restart_head_number_below_last_quiescent", 1) // not stated by the property; observed only
+		c.Count(o.cnt+"restart_head_number_below_last_quiescent", 1) // not stated by the property; observed only
 	}
 	if headHash != base.headHash {
-		c.Count("restart_head_is_newer_than_last_quiescent", 1)
+		c.Count(o.cnt+"restart_head_is_newer_than_last_quiescent", 1)
 	}
 
 	// --- current GRANDPA set
@@ -213,7 +270,7 @@ func (run *vc36Run) checkCrashPoint(k int, db database.Database) {
 	cur, err := rs.Grandpa.GetCurrentSetID()
 	if err != nil {
 		viol("set-id-unreadable", "GetCurrentSetID: "+err.Error(), info)
-		return
+		return false
 	}
 	info["current_set_id"] = cur
 	auths, err := rs.Grandpa.GetAuthorities(cur)
@@ -221,7 +278,7 @@ func (run *vc36Run) checkCrashPoint(k int, db database.Database) {
 		viol("authorities-missing", fmt.Sprintf("current set id %d has no authority list: %v", cur, err), info)
 	} else if enc, err := types.EncodeGrandpaVoters(auths); err != nil {
 		viol("authorities-missing", fmt.Sprintf("authority list of set %d not encodable: %v", cur, err), info)
-	} else if live, ok := run.authBySet[cur]; !ok {
+	} else if live, ok := o.authBySet[cur]; !ok {
 		viol("authorities-differ", fmt.Sprintf("current set id %d was never the running node's current set", cur), info)
 	} else if !bytes.Equal(enc, live) {
 		viol("authorities-differ", fmt.Sprintf("authority list of set %d differs from the one the running node used", cur), info)
@@ -230,23 +287,63 @@ func (run *vc36Run) checkCrashPoint(k int, db database.Database) {
 		viol("activation-block-missing", fmt.Sprintf("current set id %d has no set-id-change block: %v", cur, err), info)
 	}
 	if cur < base.curSetID {
-		c.Count("restart_current_set_below_last_quiescent", 1)
+		c.Count(o.cnt+"restart_current_set_below_last_quiescent", 1)
 	}
 	// what lib/grandpa's NewService reads next (observed, not decided)
 	if _, err := rs.Grandpa.GetLatestRound(); err != nil {
-		c.Count("restart_latest_round_unreadable", 1)
+		c.Count(o.cnt+"restart_latest_round_unreadable", 1)
 	}
 	if _, err := rs.Block.GetFinalisedHeader(0, 0); err != nil {
-		c.Count("restart_finalised_0_0_unreadable", 1)
+		c.Count(o.cnt+"restart_finalised_0_0_unreadable", 1)
 	}
 	if _, err := rs.Epoch.GetCurrentEpoch(); err != nil {
-		c.Count("restart_current_epoch_unreadable", 1)
+		c.Count(o.cnt+"restart_current_epoch_unreadable", 1)
 	}
+	return clean
+}
+
+// checkCrashPoint restarts on db (= writes [0,k) of the first run) and decides.
+func (run *vc36Run) checkCrashPoint(k int, db database.Database) bool {
+	o := &vc36Oracle{
+		run: run, where: fmt.Sprintf("[%s k=%d/%d]", run.plan.Name, k, len(run.rec.log)),
+		base: run.baseline(k), authBySet: run.authBySet,
+		witness: func(extra map[string]any) map[string]any { return run.witness(k, extra) },
+	}
+	if k == len(run.rec.log) {
+		o.prefix = "no-crash/" // the complete log: not a crash effect
+	}
+	return o.check(db)
+}
+
+// materialise builds a database holding the writes [0,k) of the first run followed by extra.  memAtK, when given,
+// already holds [0,k) in a map store and is cloned.
+func (run *vc36Run) materialise(k int, memAtK *vc36MemDB, extra []vc36Write) (database.Database, error) {
+	if memAtK != nil {
+		db := memAtK.clone()
+		for _, w := range extra {
+			db.apply(w.ops)
+		}
+		return db, nil
+	}
+	pdb, err := database.NewPebble("vc36-crash", true)
+	if err != nil {
+		return nil, fmt.Errorf("cannot open in-memory pebble: %w", err)
+	}
+	for _, ws := range [][]vc36Write{run.rec.log[:k], extra} {
+		for _, w := range ws {
+			if err := vc36ApplyWrite(pdb, w); err != nil {
+				_ = pdb.Close()
+				return nil, fmt.Errorf("cannot materialise prefix: %w", err)
+			}
+		}
+	}
+	return pdb, nil
 }
 
 // enumerate restarts on every prefix of the log from the end of genesis
-// initialisation to the complete log.
-func (run *vc36Run) enumerate() {
+// initialisation to the complete log; for the crash points chosen by the pair
+// budget it then runs the two-phase family (see zz_verif_c36_cont_test.go).
+func (run *vc36Run) enumerate(thorough bool) {
 	c, lg := run.c, run.rec.log
 	if run.truncated {
 		// the failing step left no quiescent point: enumerate up to the end of the log anyway, the baseline
@@ -256,6 +353,7 @@ func (run *vc36Run) enumerate() {
 	total := len(lg) - run.initEnd + 1
 	c.Count("crash_points_total", total)
 	restarted := 0
+	pairs := run.newPairPlan(thorough)
 
 	var memCur *vc36MemDB
 	if run.plan.Backend != "pebble" {
@@ -265,28 +363,16 @@ func (run *vc36Run) enumerate() {
 		}
 	}
 	for k := run.initEnd; k <= len(lg); k++ {
-		var db database.Database
-		if memCur != nil {
-			if k > run.initEnd {
-				memCur.apply(lg[k-1].ops)
-			}
-			db = memCur.clone() // restart gets its own copy: anything it writes cannot leak into k+1
-		} else {
-			pdb, err := database.NewPebble("vc36-crash", true)
-			if err != nil {
-				c.Inconclusive("cannot open in-memory pebble: " + err.Error())
-				return
-			}
-			for _, w := range lg[:k] {
-				if err := vc36ApplyWrite(pdb, w); err != nil {
-					c.Inconclusive("cannot materialise prefix: " + err.Error())
-					_ = pdb.Close()
-					return
-				}
-			}
-			db = pdb
+		if memCur != nil && k > run.initEnd {
+			memCur.apply(lg[k-1].ops)
 		}
-		run.checkCrashPoint(k, db)
+		// the restart gets its own copy: anything it writes cannot leak into k+1
+		db, err := run.materialise(k, memCur, nil)
+		if err != nil {
+			c.Inconclusive(err.Error())
+			return
+		}
+		clean := run.checkCrashPoint(k, db)
 		_ = db.Close()
 		restarted++
 
@@ -310,15 +396,30 @@ func (run *vc36Run) enumerate() {
 			}
 		}
 		c.Distinct(fmt.Sprintf("%s|%v|%d|%s", run.plan.shape(), sp, off, kind))
+
+		// --- two-phase family: recover from k, continue, crash again at j, restart
+		switch {
+		case pairs == nil:
+		case !pairs.wants(k):
+			c.Count("crash_first_points_not_continued", 1)
+		case !clean:
+			c.Count("crash_first_points_not_continued_after_violation", 1) // the first restart is already refuted
+			pairs.complete = false
+		default:
+			run.continueAndEnumerate(k, memCur, pairs, fmt.Sprintf("%v|%d|%s", sp, off, kind))
+		}
 	}
 	if restarted != total {
 		c.Inconclusive(fmt.Sprintf("scenario %s: only %d of %d crash points restarted", run.plan.Name, restarted, total))
 	} else {
 		c.Count("scenarios_exhaustively_enumerated", 1)
 	}
+	if pairs != nil && pairs.complete && pairs.allK && pairs.allJ {
+		c.Count("scenarios_pairs_exhaustively_enumerated", 1)
+	}
 }
 
-func vc36RunScenario(c *vcommon.Case, p *vc36Plan) {
+func vc36RunScenario(c *vcommon.Case, p *vc36Plan, thorough bool) {
 	inner, err := vc36OpenBackend(p.Backend)
 	if err != nil {
 		c.Inconclusive("cannot open backend: " + err.Error())
@@ -366,7 +467,7 @@ func vc36RunScenario(c *vcommon.Case, p *vc36Plan) {
 	c.Count("empty_batch_flushes", run.rec.emptyBatch)
 	c.Count("grandpa_sets_seen", len(run.authBySet))
 
-	run.enumerate()
+	run.enumerate(thorough)
 
 	last := run.quies[len(run.quies)-1]
 	c.Sample(map[string]any{
@@ -398,11 +499,22 @@ func TestVerifC36(t *testing.T) {
 	r.Floor("writes_put", 100)
 	r.Floor("writes_batch_with_delete", 1)
 	r.Floor("crash_points_backend_pebble", 50)
+	// the finalised chain below the head
+	r.Floor("chain_blocks_below_head_checked", 1000)
+	// two-phase family (recover, continue, crash again)
+	r.Floor("crash_pairs_restarted", 2000)
+	r.Floor("scenarios_pairs_exhaustively_enumerated", 3)
+	r.Floor("crash_first_points_continued_inside_set_finalised_hash", 100)
+	r.Floor("pair_second_restart_after_complete_continuation", 200)
+	r.Floor("pair_second_crash_inside_set_finalised_hash", 100)
+	r.Floor("cont_reimport_header_already_in_database", 50) // a re-import met the header a half-done finalisation left behind
+	r.Floor("cont_finalisations", 200)
+	r.Floor("crash_pairs_backend_pebble", 10)
 
 	fixed := vc36FixedPlans()
-	r.Fixed("fixed", len(fixed), func(c *vcommon.Case) { vc36RunScenario(c, fixed[c.Idx]) })
+	r.Fixed("fixed", len(fixed), func(c *vcommon.Case) { vc36RunScenario(c, fixed[c.Idx], r.Thorough()) })
 
 	r.Cases("rand", r.Scale(30), func(c *vcommon.Case) {
-		vc36RunScenario(c, vc36RandomPlan(c.R, r.Thorough(), c.Idx))
+		vc36RunScenario(c, vc36RandomPlan(c.R, r.Thorough(), c.Idx), r.Thorough())
 	})
 }
